@@ -748,9 +748,12 @@ class _Poisson:
     p > 0, symbolic
     data D >= 0 and bootstrap spectra b >= 0, optional relative thetas of the bootstraps."""
 
-    def __init__(self, env, k, nbins, nboot, thetas=False, tag=''):
+    def __init__(self, env, k, nbins, nboot, thetas=False, tag='', datamask=()):
         import dadi
         self.env, self.k, self.nbins, self.nboot = env, k, nbins, nboot
+        # bins additionally masked in the DATA spectrum only (e.g. the user masked singletons): the likelihood of the
+        # data and the optimal theta run over the jointly unmasked bins; bootstraps keep all bins
+        self.dmask = set(datamask)
         _CURENV[0] = env
         del _ATOMS[:]
         _REFUTED[0] = 0
@@ -764,6 +767,8 @@ class _Poisson:
         self.boots = [[env.real('b%d_%d' % (b, i), lo=0, hi=DMAX) for i in range(nbins)] for b in range(nboot)]
         self.thetas = [env.real('th%d' % b, lo=Fr(1, 10), hi=10) for b in range(nboot)] if thetas else None
         self.data = self.spec(self.D)
+        for i in self.dmask:
+            self.data.mask[i + 1] = True
         self.boot_fs = [self.spec(b) for b in self.boots]
         self.ncalls = 0
         self.Spectrum = dadi.Spectrum
@@ -791,6 +796,8 @@ class _Poisson:
         k = len(B)
         v = 0
         for i in range(self.nbins):
+            if datavec is self.D and i in self.dmask:
+                continue
             M = fac * (self.A[i] + sum(q[j] * B[j][i] for j in range(k)))
             if aug:
                 M = q[k] * M
@@ -885,8 +892,9 @@ def _check_regular(env, M, what):
 
 def _theta_opt(P, p, B=None):
     B = P.B if B is None else B
-    msum = sum(P.A[i] + sum(p[j] * B[j][i] for j in range(len(B))) for i in range(P.nbins))
-    return sum(P.D) / msum
+    live = [i for i in range(P.nbins) if i not in P.dmask]
+    msum = sum(P.A[i] + sum(p[j] * B[j][i] for j in range(len(B))) for i in live)
+    return sum(P.D[i] for i in live) / msum
 
 
 def godambe_body(k, nbins, nboot, thetas=False):
@@ -948,20 +956,21 @@ def perm_body(k, nbins, nboot, perm, thetas=False):
     return body
 
 
-def stats_body(k, nbins, nboot, nested, multinom=False, thetas=False, full_len='nested'):
+def stats_body(k, nbins, nboot, nested, multinom=False, thetas=False, full_len='nested', datamask=()):
     """FIM_uncert, GIM_uncert, LRT_adjust, Wald_stat, score_stat against their definitions in terms of the
     oracle's H, J, cU, GIM (textbook stencils on the independent Poisson log-likelihood)."""
     def body(env):
         from dadi import Godambe
-        P = _Poisson(env, k, nbins, nboot, thetas=thetas)
+        P = _Poisson(env, k, nbins, nboot, thetas=thetas, datamask=datamask)
         model = P.make_model()
         p = list(P.p)
         m = len(nested)
         boots = list(P.boot_fs)
         tkw = dict(boot_theta_adjusts=list(P.thetas)) if thetas else {}
         if multinom:
-            tot = P.D[0]
-            for v in P.D[1:]:
+            live = [P.D[i] for i in range(nbins) if i not in P.dmask]
+            tot = live[0]
+            for v in live[1:]:
                 tot = tot + v
             env.assume(tot > 0)      # no data at all -> theta_opt = 0 -> model identically 0 (outside)
             paug = p + [_theta_opt(P, p)]
@@ -1554,6 +1563,12 @@ def units(tier, seed):
           stats_body(k, nb, nboot, nested, multinom=mn, thetas=th, full_len=fl),
           dict(k=k, nbins=nb, nboot=nboot, nested=nested, multinom=mn, thetas=th, full_params=fl),
           min_obligations=10, expect_paths=2 ** (k + (1 if mn else 0)))
+    # data spectrum with an extra masked bin (mask differs from the model's): multinom theta over jointly unmasked bins
+    for k, nested, nbins_, dm in ([(1, [0], 4, (0,))] + ([(1, [0], 4, (2,)), (2, [1], 4, (1,))] if thorough else [])):
+        U('stats-k%d-nested%s-multinom-datamask%s' % (k, ''.join(map(str, nested)), ''.join(map(str, dm))),
+          stats_body(k, nbins_, k + 1, nested, multinom=True, datamask=dm),
+          dict(k=k, nbins=nbins_, nboot=k + 1, nested=nested, multinom=True, datamask=list(dm)),
+          min_obligations=10, expect_paths=2 ** (k + 1))
     U('reject-thetas-with-multinom', reject_body, {}, min_obligations=2)
     U('log-option-composition', log_option_body, dict(k=2, nbins=3, nboot=2), min_obligations=20)
     for stat in ('LRT_adjust', 'Wald_stat', 'score_stat'):
